@@ -98,6 +98,18 @@ def check_legs(ctx, sc):
             ctx.violation('direct-sound-attenuation', 'direct sound is not exp(-m r)/(4 pi r^2)', energy.scene_input(sc), float(dm[0, b]), ref)
             return
     ctx.oracle_evals += 3
+    # the coefficient in force is the LAST one set: the object that ran with m is given 2m and every
+    # stage is run again (same source) - every leg must carry 2m, as on the fresh object r_2m
+    import pyfar as pf
+    r_m.set_air_attenuation(pf.FrequencyData(np.asarray(2 * sc['att'], dtype=float), scenes.FREQS[:sc['B']]))
+    r_m.bake_geometry()
+    r_re = energy.run_all(sc, r=r_m)
+    ctx.oracle_evals += 1
+    for name in ('_form_factors_tilde', '_energy_init_source', '_energy_exchange_etc'):
+        if not np.array_equal(getattr(r_re, name), getattr(r_2m, name)):
+            ctx.violation('stale-attenuation', 'after set_air_attenuation(2m) on an object that had run with m, re-running every stage gives a %s that differs from a fresh object with 2m' % name,
+                          energy.scene_input(sc), 'arrays differ', 'bit-identical arrays')
+            return
 
 
 def check_collect_kernel(ctx, case):
